@@ -119,13 +119,17 @@ Ltac xl_split :=
   | H : context [if ?c then _ else _] |- _ => destruct c eqn:?
   end.
 
+(* lia over Z and bool.  coq/Base/Tac.v replaces the zify post hook that ZifyBool installs (case split on the boolean
+   atoms), so the split is done here explicitly when plain lia fails. *)
+Ltac xl_lia := solve [lia | zify; ZifyBool.elim_bool_cstr; lia].
+
 (* bring the boolean atoms into the context and decide by linear arithmetic over Z and bool *)
 Ltac xl_crush :=
   intros; cbv zeta; xl_split; subst;
-  try reflexivity; try congruence; try lia;
+  try reflexivity; try congruence; try xl_lia;
   (* bare boolean variables that lia could not split on *)
   repeat match goal with
-  | b : bool |- _ => destruct b; try reflexivity; try congruence; try lia
+  | b : bool |- _ => destruct b; try reflexivity; try congruence; try xl_lia
   end.
 
 (* unrecognised function: the premise `false = true` closes the goal, every later sentence must be `all:` *)
